@@ -63,6 +63,7 @@ typedef struct {
     int st, bkind, timedout;
     const void *key;
     int64_t deadline; /* virtual ns, -1 = none */
+    int64_t polldl;   /* a polling actor waits for this (virtual) time, 0 = none */
     uint64_t idle;    /* loads since the last progress step of anybody */
     uint64_t epoch;
     int stall_at;            /* hooks until the actor is held back (0 = not armed) */
@@ -189,6 +190,11 @@ static int64_t min_deadline(void)
     for (int i = 0; i < nact; i++)
         if (A[i].st == ST_BLOCKED && A[i].deadline >= 0 && (d < 0 || A[i].deadline < d))
             d = A[i].deadline;
+    /* a runnable actor that polls the clock for a certain time: time must not leap past it
+     * (until that actor has read the clock again) */
+    for (int i = 0; i < nact; i++)
+        if ((A[i].st == ST_READY || A[i].st == ST_RUN) && A[i].polldl && (d < 0 || A[i].polldl < d))
+            d = A[i].polldl;
     return d;
 }
 static int fire_timers(void)
@@ -247,8 +253,15 @@ static int pick(int include_me)
         /* everybody runnable is polling (or nobody is runnable): let time pass */
         int64_t d = min_deadline();
         if (d >= 0) {
-            if (d > g_vclock)
+            if (d > g_vclock) {
+                if (getenv("ABTV_DEBUG_LEAP")) {
+                    fprintf(stderr, "leap %lld -> %lld me=%d\n", (long long)g_vclock, (long long)d, me);
+                    for (int i = 0; i < nact; i++)
+                        fprintf(stderr, "  actor %d st=%d dl=%lld polldl=%lld idle=%llu\n", i, A[i].st, (long long)A[i].deadline, (long long)A[i].polldl,
+                                (unsigned long long)idle_of(i));
+                }
                 g_vclock = d;
+            }
             if (fire_timers())
                 continue;
         }
@@ -714,6 +727,8 @@ int __wrap_clock_gettime(clockid_t id, struct timespec *ts)
      * clock is in a time-bounded spin: let its time pass quickly, so that the
      * spin ends long before the polling could be taken for a stuck run */
     g_vclock += (me >= 0 && idle_of(me) > IDLE_T) ? 1000 * g_tick : g_tick;
+    if (me >= 0 && A[me].polldl && A[me].polldl <= g_vclock)
+        A[me].polldl = 0;
     int64_t v = g_vclock;
     UNLOCK();
     ts->tv_sec = v / 1000000000LL;
@@ -760,6 +775,14 @@ void abtv_clock_advance_ns(int64_t ns)
     UNLOCK();
 }
 void abtv_clock_tick_ns(int64_t ns) { g_tick = ns; }
+void abtv_poll_until(int64_t abs_ns)
+{
+    if (!SERIAL() || me < 0)
+        return;
+    LOCK();
+    A[me].polldl = abs_ns;
+    UNLOCK();
+}
 
 /* ------------------------------------------------------------------ allocation ledger */
 #define LBITS 16
